@@ -553,6 +553,10 @@ pub struct SessionScenario {
     /// fixed script run by the witness after every history (C17)
     pub witness_script: Vec<CM>,
     pub dedup: bool,
+    /// deviation switches the reference may use without the step being reported: findings of other
+    /// properties that concern only the requesting session's own answers (C17 asserts liveness and
+    /// the other sessions, C08 reports these)
+    pub tolerated: std::collections::BTreeSet<String>,
 }
 
 impl SessionScenario {
@@ -714,6 +718,9 @@ impl Scenario for SessionScenario {
                         model = next;
                         if last {
                             for sig in flags.signatures() {
+                                if self.tolerated.contains(sig) {
+                                    continue;
+                                }
                                 known.push((sig.to_owned(), format!("line {} behaves as the finding says", Self::line_text(line))));
                             }
                             class = match Self::decode(line) {
